@@ -2073,6 +2073,17 @@ func (m *mach) recentPath() string {
 // numbering objects in order of first visit) as a hash: two fingerprints of one object taken before and
 // after a call differ exactly if the call changed some reachable, visible memory cell (slice elements
 // beyond the length are not visible).
+var typeStrings sync.Map // types.Type -> its String() (printing a type is slow, fingerprints do it per interface value)
+
+func typeStringCached(t types.Type) string {
+	if s, ok := typeStrings.Load(t); ok {
+		return s.(string)
+	}
+	s := t.String()
+	typeStrings.Store(t, s)
+	return s
+}
+
 func mFingerprint(v mv) string {
 	h := fnv.New128a()
 	seen := map[*mv]int{}
@@ -2097,7 +2108,7 @@ func mFingerprint(v mv) string {
 			w("sym" + t.name)
 		case mIface:
 			if t.t != nil {
-				w("i" + t.t.String())
+				w("i" + typeStringCached(t.t))
 			}
 			walk(t.v, depth+1)
 		case mTuple:
